@@ -31,15 +31,23 @@ Definition tok_name (t : tok) : list name := match t with Txt _ => [] | Bind n =
 Definition names_of (ts : list tok) : list name := flat_map tok_name ts.
 
 (* the values a source token contributes to the parameter sequence of a qmark / format driver *)
-Definition tok_vals (inp : input) (t : tok) : list pval :=
+Definition tok_vals (proc : N -> Z -> Z) (inp : input) (t : tok) : list pval :=
   match t with
   | Txt _ => []
-  | Bind n => match dget n (i_params inp) with Some v => [v] | None => [] end
+  | Bind n => match dget n (i_params inp) with
+              | Some (PS v) => [PS (pz proc inp n v)]
+              | Some v => [v]
+              | None => []
+              end
   | PC n => match kind_of inp n, dget n (i_params inp) with
-            | Expand, Some (PL l) => map PS l
+            | Expand, Some (PL l) => map (fun z => PS (pz proc inp n z)) l
             | _, _ => []
             end
   end.
+
+(* parameters[key] after flattened_processors *)
+Definition getv (proc : N -> Z -> Z) (fp : dict N) (d : dict pval) (k : name) : pval :=
+  match dget k d with Some v => papply proc fp k v | None => PS 0 end.
 
 Section Pos.
 Variable tab : list (N * N).
@@ -123,6 +131,7 @@ Section PosRun.
 Variable tab : list (N * N).
 Variable lit : Z -> str.
 Variable empty_expr : str.
+Variable proc : N -> Z -> Z.
 Variable ps : style.
 Variable inp : input.
 Hypothesis W : wf tab inp.
@@ -138,29 +147,29 @@ Notation newpos_of := (newpos_of tab ps inp).
 Lemma bind_tok_pos : forall k, bind_tok ps k = OPos.
 Proof. intro k. revert Hps Hnum. destruct ps; cbn; congruence. Qed.
 
-Definition getv (d : dict pval) (k : name) : pval := match dget k d with Some v => v | None => PS 0 end.
+Notation getv := (fun st : pcstate => getv proc (fprocs inp st) (s_params st)).
 (* the entries of the final positiontup contributed by one source token *)
 Definition tok_pos (t : tok) : list name :=
   match t with Txt _ => [] | Bind n => newpos_of n | PC n => newpos_of n end.
 
-Lemma inline_join_pos : forall (items : list (name * Z)), items <> [] ->
-  inline_seq ps (join_toks (map (fun _ => OPos) items)) (map (fun kv => PS (snd kv)) items)
-  = Some (join_vals (map snd items)).
+Lemma inline_join_pos : forall (g : Z -> Z) (items : list (name * Z)), items <> [] ->
+  inline_seq ps (join_toks (map (fun _ => OPos) items)) (map (fun kv => PS (g (snd kv))) items)
+  = Some (join_vals (map g (map snd items))).
 Proof.
-  induction items as [|[k v] items IH]; intro Hne; [congruence|].
+  intro g. induction items as [|[k v] items IH]; intro Hne; [congruence|].
   destruct items as [|[k2 v2] items].
   - reflexivity.
   - cbn [map snd]. rewrite join_toks_cons2, join_vals_cons2. cbn [inline_seq].
     change (OPos :: map (fun _ : name * Z => OPos) items) with (map (fun _ : name * Z => OPos) ((k2, v2) :: items)).
-    change (PS v2 :: map (fun kv : name * Z => PS (snd kv)) items) with (map (fun kv : name * Z => PS (snd kv)) ((k2, v2) :: items)).
+    change (PS (g v2) :: map (fun kv : name * Z => PS (g (snd kv))) items) with (map (fun kv : name * Z => PS (g (snd kv))) ((k2, v2) :: items)).
     rewrite IH by discriminate. cbn [option_map map snd]. rewrite unpct_comma. reflexivity.
 Qed.
 
 Lemma pos_token : forall done st t, Inv done st ->
   (forall n, t = Bind n -> In n order /\ kind_of inp n = Plain) ->
   (forall n, t = PC n -> In n order /\ kind_of inp n <> Plain /\ In n done) ->
-  exists r, spec_tok lit empty_expr inp t = Some r /\
-            inline_seq ps (final_tok tab lit empty_expr ps inp bpos t) (map (getv (s_params st)) (tok_pos t)) = Some r /\
+  exists r, spec_tok lit empty_expr proc inp t = Some r /\
+            inline_seq ps (final_tok tab lit empty_expr ps inp bpos t) (map (getv st) (tok_pos t)) = Some r /\
             (forall k, In k (tok_pos t) -> dget k (s_params st) <> None).
 Proof.
   intros done st t I Hb Hp. destruct t as [s|n|n].
@@ -169,17 +178,19 @@ Proof.
   - destruct (Hb n eq_refl) as [Hn K]. destruct (w_plain _ _ W n Hn K) as [v Hv].
     assert (Hg : dget n (s_params st) = Some (PS v)).
     { rewrite (v_keep _ _ _ _ _ _ _ I n Hn (or_intror K)). exact Hv. }
-    exists [Val v]. split; [apply spec_bind; exact Hv|].
-    cbn [final_tok tok_pos]. unfold ParamsPost.newpos_of. rewrite K. cbn [map]. unfold getv. rewrite Hg.
+    exists [Val (pz proc inp n v)]. split; [apply spec_bind; exact Hv|].
+    cbn [final_tok tok_pos]. unfold ParamsPost.newpos_of. rewrite K. cbn [map]. unfold ParamsPos.getv. rewrite Hg.
+    rewrite (papply_pz proc inp _ n n v (fprocs_plain tab lit empty_expr ps inp W done st n I Hn)).
     split; [reflexivity|]. intros k [<-|[]]. congruence.
   - destruct (Hp n eq_refl) as [Hn [K Hd]]. cbn [final_tok spec_tok tok_pos]. unfold repl_of, ParamsPost.newpos_of.
     destruct (kind_of inp n) eqn:K'; [congruence| |].
     + destruct (w_expand _ _ W n Hn K') as [l Hl]. rewrite Hl, Hnum. unfold plist. rewrite Hl.
       assert (Hx : expanded_names (esc tab n) l = xitems tab inp n).
       { unfold xitems, plist. rewrite K', Hl. reflexivity. }
-      assert (Hv : map (getv (s_params st)) (xnames tab inp n) = map (fun kv => PS (snd kv)) (xitems tab inp n)).
-      { unfold xnames. rewrite map_map. apply map_ext_in. intros [k v] Hi. cbn [fst snd]. unfold getv.
-        rewrite (v_x _ _ _ _ _ _ _ I n k v Hd Hi). reflexivity. }
+      assert (Hv : map (getv st) (xnames tab inp n) = map (fun kv => PS (pz proc inp n (snd kv))) (xitems tab inp n)).
+      { unfold xnames. rewrite map_map. apply map_ext_in. intros [k v] Hi. cbn [fst snd]. unfold ParamsPos.getv.
+        rewrite (v_x _ _ _ _ _ _ _ I n k v Hd Hi).
+        exact (papply_pz proc inp _ k n v (fprocs_x tab lit empty_expr ps inp W done st n k v I Hd Hi)). }
       assert (Hk : forall k, In k (xnames tab inp n) -> dget k (s_params st) <> None).
       { intros k Hk. unfold xnames in Hk. apply in_map_iff in Hk. destruct Hk as [[k' v] [<- Hi]].
         cbn [fst]. rewrite (v_x _ _ _ _ _ _ _ I n k' v Hd Hi). congruence. }
@@ -187,9 +198,9 @@ Proof.
       * exists (map Ch empty_expr). split; [reflexivity|]. split; [|exact Hk].
         unfold xnames, xitems, plist. rewrite K', Hl. cbn [expanded_names expand_from map repl_expand inline_seq option_map].
         rewrite unpct_pct, app_nil_r. reflexivity.
-      * exists (join_vals (z :: l)). split; [reflexivity|]. split; [|exact Hk]. unfold repl_expand.
+      * exists (join_vals (map (pz proc inp n) (z :: l))). split; [reflexivity|]. split; [|exact Hk]. unfold repl_expand.
         rewrite (map_ext _ (fun _ => OPos)) by (intro kv; apply bind_tok_pos).
-        rewrite Hv, Hx. rewrite inline_join_pos.
+        rewrite Hv, Hx. rewrite (inline_join_pos (pz proc inp n)).
         -- rewrite <- Hx. unfold expanded_names. rewrite expand_from_snd. reflexivity.
         -- rewrite <- Hx. discriminate.
     + destruct (w_litv _ _ W n Hn K') as [v Hv]. rewrite Hv, (kind_pv inp n v Hv).
@@ -200,9 +211,9 @@ Qed.
 Lemma pos_tokens : forall done st toks, Inv done st ->
   (forall n, In (Bind n) toks -> In n order /\ kind_of inp n = Plain) ->
   (forall n, In (PC n) toks -> In n order /\ kind_of inp n <> Plain /\ In n done) ->
-  exists sp, concat_opt (map (spec_tok lit empty_expr inp) toks) = Some sp /\
+  exists sp, concat_opt (map (spec_tok lit empty_expr proc inp) toks) = Some sp /\
              inline_seq ps (flat_map (final_tok tab lit empty_expr ps inp bpos) toks)
-                        (map (getv (s_params st)) (flat_map tok_pos toks)) = Some sp /\
+                        (map (getv st) (flat_map tok_pos toks)) = Some sp /\
              (forall k, In k (flat_map tok_pos toks) -> dget k (s_params st) <> None).
 Proof.
   intros done st toks I. induction toks as [|t toks IH]; intros Hb Hp.
@@ -221,29 +232,31 @@ Qed.
 Lemma pos_token_vals : forall done st t, Inv done st ->
   (forall n, t = Bind n -> In n order /\ kind_of inp n = Plain) ->
   (forall n, t = PC n -> In n order /\ kind_of inp n <> Plain /\ In n done) ->
-  map (getv (s_params st)) (tok_pos t) = tok_vals inp t.
+  map (getv st) (tok_pos t) = tok_vals proc inp t.
 Proof.
   intros done st t I Hb Hp. destruct t as [s|n|n]; cbn [tok_pos tok_vals].
   - reflexivity.
   - destruct (Hb n eq_refl) as [Hn K]. destruct (w_plain _ _ W n Hn K) as [v Hv].
-    unfold ParamsPost.newpos_of. rewrite K, Hv. cbn [map]. unfold getv.
-    rewrite (v_keep _ _ _ _ _ _ _ I n Hn (or_intror K)), Hv. reflexivity.
+    unfold ParamsPost.newpos_of. rewrite K, Hv. cbn [map]. unfold ParamsPos.getv.
+    rewrite (v_keep _ _ _ _ _ _ _ I n Hn (or_intror K)), Hv.
+    rewrite (papply_pz proc inp _ n n v (fprocs_plain tab lit empty_expr ps inp W done st n I Hn)). reflexivity.
   - destruct (Hp n eq_refl) as [Hn [K Hd]]. unfold ParamsPost.newpos_of.
     destruct (kind_of inp n) eqn:K'; [congruence| |].
     + destruct (w_expand _ _ W n Hn K') as [l Hl]. rewrite Hl, Hnum.
       unfold xnames. rewrite map_map.
       assert (Hx : xitems tab inp n = expanded_names (esc tab n) l).
       { unfold xitems, plist. rewrite K', Hl. reflexivity. }
-      rewrite (map_ext_in _ (fun kv => PS (snd kv))).
-      * rewrite Hx. rewrite <- (map_map snd PS). unfold expanded_names. rewrite expand_from_snd. reflexivity.
-      * intros [k v] Hi. cbn [fst snd]. unfold getv. rewrite (v_x _ _ _ _ _ _ _ I n k v Hd Hi). reflexivity.
+      rewrite (map_ext_in _ (fun kv => PS (pz proc inp n (snd kv)))).
+      * rewrite Hx. rewrite <- (map_map snd (fun z => PS (pz proc inp n z))). unfold expanded_names. rewrite expand_from_snd. reflexivity.
+      * intros [k v] Hi. cbn [fst snd]. unfold ParamsPos.getv. rewrite (v_x _ _ _ _ _ _ _ I n k v Hd Hi).
+        exact (papply_pz proc inp _ k n v (fprocs_x tab lit empty_expr ps inp W done st n k v I Hd Hi)).
     + destruct (dget n (i_params inp)); reflexivity.
 Qed.
 
 Lemma pos_tokens_vals : forall done st toks, Inv done st ->
   (forall n, In (Bind n) toks -> In n order /\ kind_of inp n = Plain) ->
   (forall n, In (PC n) toks -> In n order /\ kind_of inp n <> Plain /\ In n done) ->
-  map (getv (s_params st)) (flat_map tok_pos toks) = flat_map (tok_vals inp) toks.
+  map (getv st) (flat_map tok_pos toks) = flat_map (tok_vals proc inp) toks.
 Proof.
   intros done st toks I Hb Hp. induction toks as [|t toks IH]; [reflexivity|].
   cbn [flat_map]. rewrite map_app, IH.
@@ -260,19 +273,20 @@ Proof.
   intros [s|n|n]; cbn [tok_name tok_pos flat_map]; try rewrite app_nil_r; reflexivity.
 Qed.
 
-Lemma assemble_ok : forall (d : dict pval) ptup, (forall k, In k ptup -> dget k d <> None) ->
-  mapM (fun k => match dget k d with Some v => Ok v | None => Raise KeyError end) ptup = Ok (map (getv d) ptup).
+Lemma assemble_ok : forall fp (d : dict pval) ptup, (forall k, In k ptup -> dget k d <> None) ->
+  mapM (fun k => match dget k d with Some v => Ok (papply proc fp k v) | None => Raise KeyError end) ptup
+  = Ok (map (ParamsPos.getv proc fp d) ptup).
 Proof.
-  intros d ptup H. apply mapM_ok. intros k Hk. unfold getv. specialize (H k Hk).
+  intros fp d ptup H. apply mapM_ok. intros k Hk. unfold ParamsPos.getv. specialize (H k Hk).
   destruct (dget k d); [reflexivity|congruence].
 Qed.
 
 (* the driver receives, in text order, exactly the values of the binds (an expanding bind contributes its
    elements in order, a literal_execute bind nothing) and every placeholder consumes its own value *)
 Theorem pos_ok :
-  exists ts sp, run tab lit empty_expr ps inp = Ok (ts, FPos (flat_map (tok_vals inp) (i_toks inp))) /\
-                inline_spec lit empty_expr inp = Some sp /\
-                inline ps ts (FPos (flat_map (tok_vals inp) (i_toks inp))) = Some sp.
+  exists ts sp, run tab lit empty_expr proc ps inp = Ok (ts, FPos (flat_map (tok_vals proc inp) (i_toks inp))) /\
+                inline_spec lit empty_expr proc inp = Some sp /\
+                inline ps ts (FPos (flat_map (tok_vals proc inp) (i_toks inp))) = Some sp.
 Proof.
   unfold run, compile. rewrite Hnum, Hps, (positiontup_in_text_order tab inp W ps). cbn [bind c_toks c_positiontup].
   destruct (i_pc inp) eqn:HP.
@@ -287,10 +301,11 @@ Proof.
       * intros n Hn. destruct (w_pc _ _ W n Hn) as [A B]. split; [exact A|split; [exact B|]].
         unfold names_of. apply in_flat_map. exists (PC n). split; [exact Hn|left; reflexivity].
       * rewrite (v_newpos _ _ _ _ _ _ _ I), Hps, names_newpos.
-        rewrite (assemble_ok _ _ S3). cbn [bind].
+        rewrite (assemble_ok _ _ _ S3). cbn [bind].
         assert (Hp' : forall n, In (PC n) (i_toks inp) -> In n order /\ kind_of inp n <> Plain /\ In n (names_of (i_toks inp))).
         { intros n Hn. destruct (w_pc _ _ W n Hn) as [A B]. split; [exact A|split; [exact B|]].
           unfold names_of. apply in_flat_map. exists (PC n). split; [exact Hn|left; reflexivity]. }
+        change (dupdate (s_procs st) (i_procs inp)) with (fprocs inp st).
         rewrite (pos_tokens_vals _ st (i_toks inp) I (w_bind _ _ W) Hp') in *.
         eexists _, sp. split; [reflexivity|]. split; [exact S1|].
         unfold inline. rewrite Hnum, Hps. exact S2.
@@ -307,11 +322,11 @@ Proof.
       { unfold names_of. apply flat_map_ext_in'. intros [s|n|n] Ht; cbn [tok_name tok_pos]; [reflexivity| |].
         - unfold ParamsPost.newpos_of. rewrite (proj2 (w_bind _ _ W n Ht)). reflexivity.
         - exfalso. exact (Hno n Ht). }
-      rewrite Hn. cbn [init_state s_params] in S3, S2. cbn [bind]. rewrite (assemble_ok _ _ S3). cbn [bind].
+      rewrite Hn. unfold fprocs in S2. cbn [init_state s_params s_procs] in S3, S2. cbn [bind]. rewrite (assemble_ok _ _ _ S3). cbn [bind].
       assert (Hp' : forall n, In (PC n) (i_toks inp) -> In n order /\ kind_of inp n <> Plain /\ In n []).
       { intros n Hn'. exfalso. exact (Hno n Hn'). }
       pose proof (pos_tokens_vals _ _ (i_toks inp) (Inv_init tab lit empty_expr ps inp W) (w_bind _ _ W) Hp') as HV.
-      cbn [init_state s_params] in HV. rewrite HV in *.
+      unfold fprocs in HV. cbn [init_state s_params s_procs] in HV. rewrite HV in *.
       eexists _, sp. split; [reflexivity|]. split; [exact S1|].
       unfold inline. rewrite Hnum, Hps. exact S2.
 Qed.
